@@ -451,7 +451,12 @@ class CtlSim:
         if how == "close":
             c.writer.close()
         elif how == "eof":
-            c.writer.write_eof()
+            try:
+                c.writer.write_eof()
+            except OSError:
+                # the server side of this connection is gone already: nothing to half-close
+                c.gone = "close"
+                c.writer.close()
         elif how == "abort":
             c.writer.transport.abort()
         elif how == "vanish":
